@@ -188,9 +188,55 @@ def run(ctx):
             params = [x[1] for x in (oa, ob) if x[0] == 'local' and not x[2]]
             if (LA + 'AuthorityLockRecord', 'pid') in flds and pid_param[0] in params:
                 eq_edges.append((bi, ts.get('0') if o[1]['op'] == 'Ne' else els))
+    # the identity check may sit in a bool predicate of the module (`stale_authority_cleanup_applies(dir, pid)`): it counts
+    # when the predicate re-reads the lock record, can only answer true with `lock.pid == <its pid parameter>`, is handed
+    # the expected pid, and its TRUE edge dominates the rename
+    pred_edges = []
+    pred_reads = []
+    for c_ in cl.sites():
+        H = P.fns.get(c_.callee or '')
+        if H is None or not (c_.callee or '').startswith(LA) or (P.sigs.get(c_.callee) or {}).get('output') != 'bool':
+            continue
+        hp = [i for i, a_ in enumerate(c_.args) if cl.root_local(a_) == pid_param[0]]
+        if not hp or not H.calls(r'local_authority::read_authority_lock_record$'):
+            continue
+        only_true_on_match = True
+        saw_eq = False
+        for (dbi, si, kind, payload, _ln) in H.defs(0):
+            if kind != 'rv':
+                only_true_on_match = False
+                continue
+            k_ = op_const(payload['a'][0]) if payload.get('k') == 'use' and payload.get('a') else None
+            if k_ is not None and k_.get('v') is False:
+                continue
+            o_ = H.origin({'c': {'l': 0}}) if False else None
+            src_ = payload
+            if payload.get('k') == 'use':
+                oo_ = H.origin(payload['a'][0])
+                src_ = oo_[1] if oo_[0] == 'rv' else {}
+            if src_.get('k') == 'bin' and src_.get('op') == 'Eq':
+                fl_ = []
+                pr_ = []
+                for x_ in src_['a']:
+                    ox = H.origin(x_)
+                    if ox[0] == 'local':
+                        fl_ += [(pp.get('o'), pp.get('n')) for pp in ox[2] if isinstance(pp, dict) and 'f' in pp]
+                        if not ox[2]:
+                            pr_.append(ox[1])
+                if (LA + 'AuthorityLockRecord', 'pid') in fl_ and (hp[0] + 1) in pr_:
+                    saw_eq = True
+                    continue
+            only_true_on_match = False
+        if only_true_on_match and saw_eq:
+            sw_ = cl.switch_on_call(c_)
+            if sw_ is not None:
+                bb_, ts_, els_, neg_ = sw_
+                true_t = ts_.get('0') if neg_ else els_
+                pred_edges.append((bb_, true_t))
+                pred_reads.append(c_)
     for r in lock_ren:
-        ok1 = any(cl.dom(x.bb, r.bb) for x in reads)
-        ok2 = any(t is not None and cl.edge_dom(bi, t, r.bb) for (bi, t) in eq_edges)
+        ok1 = any(cl.dom(x.bb, r.bb) for x in reads + pred_reads)
+        ok2 = any(t is not None and cl.edge_dom(bi, t, r.bb) for (bi, t) in eq_edges + pred_edges)
         ctx.ob('C18.2', cl, 'reread-before-rename', ok1, 'the lock record is re-read inside the cleanup before the rename', line=r.line)
         ctx.ob('C18.2', cl, 'pid-match-before-rename', ok2, 'the rename is reachable only when lock.pid == expected_pid', line=r.line)
     # recovery does not hinge on the endpoint file: "lock only, dead pid" (the owner died between acquiring and publishing)
